@@ -255,6 +255,30 @@ def run(ctx):
                 q(feats, 'simple-events', {'input': text, 'position': name, 'observed': repr(se[1])})
         ctx.count('queries_judged', nq)
         judge_iterate(hp, text, feats)
+        # disjunction trees of every shape (only the constructors can build left-nested or balanced ones)
+        for name, ev in pos.items():
+            if ev[0] != 'disj' or len(ev[1]) < 3:
+                continue
+            for nst in ('left', 'balanced', rng):
+                hplapi.NESTING[0] = nst
+                try:
+                    ob = hplapi.outcome(hplapi.build_event, ev)
+                finally:
+                    hplapi.NESTING[0] = 'right'
+                if ob[0] != 'ok':
+                    continue
+                h = ob[1]
+                ctx.count('api_built_disjunctions')
+                alts = ev[1]
+                got = hplapi.outcome(h.aliases)
+                if got[0] != 'ok' or tuple(got[1]) != tuple(a[2] for a in alts if a[2] is not None):
+                    q(feats, 'aliases', {'input': A.render_event(ev), 'nesting': nst if isinstance(nst, str) else 'random',
+                                         'observed': repr(got[1])})
+                se = hplapi.outcome(lambda: [str(x.name) for x in h.simple_events()])
+                if se[0] != 'ok' or se[1] != [a[1] for a in alts]:
+                    q(feats, 'simple-events', {'input': A.render_event(ev), 'nesting': nst if isinstance(nst, str) else 'random',
+                                               'observed': repr(se[1])})
+                judge_iterate(h, A.render_event(ev), feats)
         if n % 20 == 0 and pool:
             k = rng.randrange(1, 4)
             stext = '\n'.join(gen.pick(rng, pool) for _ in range(k))
